@@ -2,6 +2,7 @@
 package c17
 
 import (
+	auto "github.com/moorara/algo/automata"
 	"crypto/sha256"
 	"encoding/json"
 	"fmt"
@@ -59,6 +60,8 @@ var specPool = []string{
 	"grammar c5;\nstart = \"[0-9]+\" \"a|b\" \"x?\";\n",
 	"grammar c6;\nP = /a|b/\nQ = /x?y/\nstart = P Q;\n",
 	"grammar c7;\nP = \"a|b\"\nstart = P;\n",
+	"grammar e1;\nHI = /[\\xD800-\\xD803]+/\nstart = HI;\n",
+	"grammar e2;\nLO = /[\\xDC00-\\xDC03]+/\nstart = LO;\n",
 	// conflict reports name synthesised rules: they must not depend on what was processed before
 	"grammar d1;\nNUM = /[0-9]+/\nstart = expr;\nexpr = expr ( \"+\" | \"-\" ) expr | NUM;\n",
 	"grammar d2;\nstart = s;\ns = ( \"i\" s | \"i\" s \"e\" s ) | \"x\" { \"y\" \"z\" };\n",
@@ -73,6 +76,28 @@ var patternPool = []string{
 	"a", "ab|c", "[a-f]+", "[^a-f]", "[0-9][0-9]*", `\d+(\.\d+)?`, "[[:alpha:]_][[:alnum:]_]*", "(a|b)*abb", "a{2,4}", "(ab){2}c", "x?y*z+", ".", `\w+`, `[\x41-\x5A\x00E9]`,
 	"(", "a{3,1}", "[z-a]", "", `\`, "a**", "[u-z]+", "[a-cx-z]", `"([^"\\]|\\.)*"`, "(a*b){2}", "[^0-9]+",
 	"[z-a", "(a{3,1}", "x{2,1})", "a|b", "x?", "a*b",
+	// ranges whose end points print alike (surrogate code points, U+FFFD)
+	`[\xD800-\xD803]+`, `[\xDC00-\xDC03]+`, `[\xD801-\xD802]`, `[\xFFFD-\xFFFE]x`, `[\xDFFE-\xDFFF]`,
+}
+
+// probes are inputs on which every automaton of a signature is run (a printed transition table shows surrogate
+// code points and U+FFFD alike).
+var probes = [][]rune{{'a'}, {'b'}, {'.'}, {'a', 'b'}, {'a', '*', 'b'}, {'x', 'y'}, {'9'}, {'a', 'a', 'b'}, {0xE9}, {0xD800}, {0xDBFF}, {0xDC00}, {0xDFFF}, {0xE000}, {0xFFFD}, {0xFFFE}, {0xD800, 0xD801}, {0xDC00, 0xDFFF}, {0xFFFD, 'x'}, {'i', 'f'}, {'1', '.', '5'}, {'"', 'a', '"'}}
+
+func probeAcceptance(d *auto.DFA) string {
+	var b strings.Builder
+	for _, p := range probes {
+		s := make(auto.String, len(p))
+		for i, r := range p {
+			s[i] = auto.Symbol(r)
+		}
+		if d.Accept(s) {
+			b.WriteByte('1')
+		} else {
+			b.WriteByte('0')
+		}
+	}
+	return b.String()
 }
 
 func specSignature(src string) string {
@@ -104,7 +129,7 @@ func specSignature(src string) string {
 					owners = append(owners, fmt.Sprintf("%s:%v", a, ss))
 				}
 				sort.Strings(owners)
-				fmt.Fprintf(&b, "dfa states=%d owners=%s transitions=%x\n", len(d.States()), strings.Join(owners, " "), sha256.Sum256([]byte(d.String())))
+				fmt.Fprintf(&b, "dfa states=%d owners=%s transitions=%x probes=%s\n", len(d.States()), strings.Join(owners, " "), sha256.Sum256([]byte(d.String())), probeAcceptance(d))
 			}
 		}
 		if err == nil && lalrPool[sp.Name] {
@@ -139,14 +164,14 @@ func patternSignature(p string) string {
 			fmt.Fprintf(&b, "nfa-error: %s\n", err)
 		} else {
 			d := n.ToDFA().Minimize().EliminateDeadStates().ReindexStates()
-			fmt.Fprintf(&b, "nfa-dfa: %s\n", d.String())
+			fmt.Fprintf(&b, "nfa-dfa: %s probes=%s\n", d.String(), probeAcceptance(d))
 		}
 		a, err := rast.Parse(p)
 		if err != nil {
 			fmt.Fprintf(&b, "ast-error: %s\n", err)
 		} else {
 			d := a.ToDFA().EliminateDeadStates().ReindexStates()
-			fmt.Fprintf(&b, "ast-dfa states=%d final=%d symbols=%d\n", len(d.States()), d.Final.Size(), len(d.Symbols()))
+			fmt.Fprintf(&b, "ast-dfa states=%d final=%d symbols=%d probes=%s\n", len(d.States()), d.Final.Size(), len(d.Symbols()), probeAcceptance(d))
 		}
 	})
 	if err != nil {
